@@ -33,7 +33,7 @@ PARAMS = {
     "Polyline": ["vertices", "current"], "Dipole": ["moment"],
 }
 FORMS = ["top", "method", "sensor", "lists", "src_coll", "sens_coll", "mixed_coll", "func_n", "func_single",
-         "func_nopose", "func_magnetization", "core", "dataframe", "polyline_segments"]
+         "func_nopose", "func_magnetization", "core", "dataframe", "polyline_segments", "sensor_path"]
 
 
 def plan(tier):
@@ -105,6 +105,19 @@ def core_eval(case):
     if F not in "BH":
         return None
     mu0 = magpy.mu_0
+
+    class Twice:
+        """every core function is called twice with the very same argument objects and the second result is
+        used: the documented low-level interface must give the same numbers when its inputs are reused"""
+
+        def __getattr__(self, name):
+            f = getattr(magpy.core, name)
+
+            def g(*a, **k):
+                f(*a, **k)
+                return f(*a, **k)
+            return g
+    core = Twice()
     res = []
     for s, o in zip(case["instances"], case["observers"]):
         Rs = R.from_quat(s["orientation"][0])
@@ -266,6 +279,41 @@ def check_case(ctx, case):
                                      segment_start=np.array([a for a, b in segs]), segment_end=np.array([b for a, b in segs]),
                                      position=np.array([s["position"][0] for s in use]),
                                      orientation=R.from_quat([s["orientation"][0] for s in use]))).reshape(-1, 3)
+            elif form == "sensor_path":
+                # one Sensor object with a position AND orientation path (and pixels) against the same poses
+                # evaluated one by one through plain observer positions, rotated into the sensor frame here
+                r = np.random.default_rng(__import__("zlib").crc32(repr(case["observers"][0]).encode()))
+                s0 = specs[0]
+                L = int(r.choice([2, 3, 5]))
+                kind = str(r.choice(["generic", "closed", "rocking", "static", "late"]))
+                q = R.random(L, random_state=int(r.integers(2**31)))
+                if kind == "closed":          # ends where it started
+                    q = R.from_quat(np.r_[q.as_quat()[:-1], q.as_quat()[:1]])
+                elif kind == "rocking":       # 0 -> a -> 0 about one axis
+                    ax = r.normal(size=3)
+                    ang = np.r_[0.0, r.uniform(0.2, 2.5, size=L - 2 if L > 2 else 1), 0.0][:max(L, 3)]
+                    L = len(ang)
+                    q = R.from_rotvec(np.outer(ang, ax / np.linalg.norm(ax))) * q[0]
+                elif kind == "static":
+                    q = R.from_quat(np.repeat(q.as_quat()[:1], L, axis=0))
+                elif kind == "late":          # constant except for the last step
+                    qq = np.repeat(q.as_quat()[:1], L, axis=0)
+                    qq[-1] = q.as_quat()[-1]
+                    q = R.from_quat(qq)
+                P = O[0] + r.normal(size=(L, 3)) * 0.3
+                pix = r.normal(size=(int(r.integers(1, 4)), 3)) * 0.2
+                sens = magpy.Sensor(position=P, orientation=q, pixel=pix)
+                obj = objs.build(s0)
+                got = np.asarray(get(obj, sens, squeeze=False))[0, :, 0]          # (L, npix, 3)
+                refl = []
+                for m in range(L):
+                    glob = P[m] + q[m].apply(pix)
+                    with quiet():
+                        v = np.asarray(getattr(objs.build(s0), "get" + F)(glob)).reshape(-1, 3)
+                    refl.append(q[m].inv().apply(v))
+                ref = np.array(refl)
+                case = {**case, "instances": [s0], "sensor_path_kind": kind}
+                ctx.count("sensor_path:" + kind)
             elif form == "core":
                 got = core_eval(case)
                 if got is None:
